@@ -105,7 +105,8 @@ class Scenario(object):
 
     def run(self, extra_argv=(), filters=()):
         self.session += 1
-        return drive.run_session(self.wd, list(extra_argv) + [self.conf] + list(filters), self.script)
+        with cached_config():
+            return drive.run_session(self.wd, list(extra_argv) + [self.conf] + list(filters), self.script)
 
     def read(self):
         if not os.path.exists(self.data_path):
@@ -125,6 +126,36 @@ class Scenario(object):
                 for (c, s) in dp:
                     idx[s] = (st['n'], j, c)
         return idx
+
+
+_CONFIG_CACHE = {}
+
+
+@contextlib.contextmanager
+def cached_config():
+    """Loading + schema validation of the (unchanged) configuration file costs more than the rest of
+    a session (pykwalify re-reads its schema with a pure-Python YAML parser every time).  The
+    data-file properties do not concern configuration loading: the validated raw configuration is
+    memoised per (file, mtime, size) and handed out as a deep copy.  Patched from outside at the
+    name `rebench.rebench.load_config`."""
+    import copy
+    from rebench import rebench as rb_main
+    real = rb_main.load_config
+
+    def memo(file_name):
+        try:
+            st = os.stat(file_name)
+            key = (os.path.abspath(file_name), st.st_mtime_ns, st.st_size)
+        except OSError:
+            return real(file_name)
+        if key not in _CONFIG_CACHE:
+            _CONFIG_CACHE[key] = real(file_name)
+        return copy.deepcopy(_CONFIG_CACHE[key])
+    rb_main.load_config = memo
+    try:
+        yield
+    finally:
+        rb_main.load_config = real
 
 
 # ------------------------------------------------------------ independent parser
